@@ -15,6 +15,11 @@ l.c07text  : C07 at TEXT level (Go-side asserts, expected answers per the theore
              IsHigherPriority in both directions — strictly higher for the modifiers where the text-level statement
              holds, higher / tie / LOWER for a document-only option on a rule with < 2 / 2 / > 2 permitted content
              types (c07_text_doconly_iff), tie for a content type on a document-only rule and for ,dnsrewrite=.
+             Group P1 (harness/op_p1_c07exact.go, two lines in five): `,document` (c07_text_document_iff: < 6 / = 6 /
+             > 6 counted types + present $document bits), `,~extension` (c07_text_not_extension_iff), a repeated bare
+             modifier (c07_text_repeat_tie), a list-valued modifier written again (c07_text_domain_again_iff,
+             c07_text_list_again_tie), one more value at any position (c07_text_add_value_iff); `~extension` may
+             already occur in the original text.
 l.c08order : C08, the value-ORDER behaviour of the twin relation (Go-side asserts, expected answers per the lemmas
              c08_order_*): near-twins whose list-valued modifier has its values permuted are negated iff the parser
              sorts that modifier ($ctag, $client) and not for $domain / $denyallow / $dnstype; through
